@@ -90,6 +90,21 @@ CHECKS.update({
         "fresh-object output is the reference", "DESIGN.md 4/C20"),
 })
 
+CHECKS.update({
+    "C12": ("exploration",
+        "invariant over schedules: real worker threads serialised by a harness-owned scheduler whose choices (incl. when queue waits time out) are Hypothesis-generated; differential against split()",
+        "Every generated (input, observer set, schedule) runs the real TokenizerWorker/observer threads with exactly one thread running at a time; observer logs, ids, printed lines and the worker's detections list must equal split(); deadlock and non-termination are detected in model steps. A few cases are repeated free-running on the real queue.Queue.",
+        "interleavings at the granularity of queue operations / reads / callbacks / start / exit / join; fairness after the generated prefix; CPython threading and wave trusted", "DESIGN.md 3.4, 4/C12"),
+    "C13": ("exploration",
+        "differential over schedules: files written by the saver/joiner/region workers parsed with stdlib wave and compared with the blocks handed out / split() / split_and_join_with_silence()",
+        "As C12 with cache sizes around the block size, silence durations incl. non-integral sample counts, generated filename templates; a transparent proxy logs the blocks the tokenizer received.",
+        "as C12", "DESIGN.md 4/C13"),
+    "C14": ("fault_enumeration",
+        "fault injection over schedules: stop_all() injected at a generated scheduling step of a generated schedule (finite or endless source); oracle = split() of the blocks actually handed out",
+        "Each schedule is measured, then replayed with stop_all() at step floor(f*T), f in [0,1.15]; logs, files and thread termination judged against the prefix actually read. Endless sources make the stop the only way to end the run.",
+        "as C12; the stop arrives through stop_all() from the main thread", "DESIGN.md 4/C14"),
+})
+
 NOT_YET = "check not built yet in this round (planned in DESIGN.md section 10)"
 
 
